@@ -37,7 +37,7 @@ def codec_calls(fn, names):
     return out
 
 
-def check(ctx):
+def _check_own(ctx):
     prog = ctx.prog
     kts = {}
     for i in prog.impls:
@@ -167,3 +167,9 @@ def _through(prog, fn, os_, depth=0, opaque_index=False):
         else:
             out.append(o)
     return out
+
+
+def check(ctx):
+    _check_own(ctx)
+    from .engine import import_rules
+    import_rules(ctx, "c01", {"lookup-by-full-key", "lookup-result"})
